@@ -117,12 +117,20 @@ func min64(a, b int64) int64 {
 	return b
 }
 
+// The machine's zone, as far as the harness is concerned, is two hours east
+// of Greenwich: a time in time.Local then prints differently from the same
+// instant in UTC, on whatever machine the checks run.
+func init() {
+	time.Local = time.FixedZone("Local", 2*60*60)
+}
+
 // Time draws an instant representable in RFC 3339: local year 1..9999,
-// nanosecond precision, UTC or a fixed zone with a whole-minute offset within
-// +-23:59, no monotonic reading.
+// nanosecond precision, UTC, time.Local or a fixed zone with a whole-minute
+// offset within +-23:59, no monotonic reading.
 func Time(t *rapid.T, label string) time.Time {
 	// Landmark instants: the zero time (in UTC and written in another zone),
-	// the Unix epoch, the last representable nanosecond.
+	// the Unix epoch, the last representable nanosecond, the ends of the
+	// range written in a zone that puts their UTC year outside of it.
 	if rapid.IntRange(0, 11).Draw(t, label+"-landmark") == 0 {
 		return rapid.SampledFrom([]time.Time{
 			{},
@@ -131,6 +139,10 @@ func Time(t *rapid.T, label string) time.Time {
 			time.Unix(0, 0).In(time.FixedZone("", -60*60)),
 			time.Date(9999, 12, 31, 23, 59, 59, 999999999, time.UTC),
 			time.Date(1, 1, 1, 0, 0, 0, 1, time.UTC),
+			// Local year 9999 / 1 whose UTC year is 10000 / 0: fine as
+			// written, out of range once converted to UTC.
+			time.Date(9999, 12, 31, 23, 30, 0, 0, time.FixedZone("", -60*60)),
+			time.Date(1, 1, 1, 0, 30, 0, 0, time.FixedZone("", 60*60)),
 		}).Draw(t, label+"-landmark-instant")
 	}
 
@@ -156,13 +168,16 @@ func Time(t *rapid.T, label string) time.Time {
 
 	loc := time.UTC
 
-	switch rapid.IntRange(0, 2).Draw(t, label+"-zcls") {
+	switch rapid.IntRange(0, 3).Draw(t, label+"-zcls") {
 	case 1:
 		off := rapid.SampledFrom([]int{0, 60, -60, 330, -570, 1439, -1439, 1, -1, 720, -720}).Draw(t, label+"-zb")
 		loc = time.FixedZone("", off*60)
 	case 2:
 		off := rapid.IntRange(-1439, 1439).Draw(t, label+"-z")
 		loc = time.FixedZone("", off*60)
+	case 3:
+		// What time.Now() and time.Unix() give (see init below).
+		loc = time.Local
 	}
 
 	return time.Date(year, time.Month(month), day, hour, minute, sec, nsec, loc)
